@@ -465,6 +465,8 @@ def global_replay(run, threads, window=128):
                                                               hexz(e.size), hexz(e.a), hexz(e.b), e.ok & 1))
         lines.append(".")
     lines.append("G %d %x %d" % (run.oc, run.pool0, window))
+    if os.environ.get("RQ_SAVE"):
+        open(os.environ["RQ_SAVE"], "w").write("\n".join(lines) + "\n")
     r = subprocess.run([exe], input="\n".join(lines) + "\n", stdout=subprocess.PIPE, stderr=subprocess.PIPE, text=True, timeout=600)
     if r.returncode != 0:
         raise RuntimeError("replay driver failed: " + r.stderr[-1500:])
